@@ -29,7 +29,8 @@ from ..utils import join_path, resolve_path
 
 def combine_patches(diffs):
     """Rewrite diffs in canonical form where only one patch
-    applies to one key and diff entries are sorted by key."""
+    applies to one key and diff entries are sorted by key,
+    an insertion before an item preceding the patch of that item."""
     patches = {}
     newdiffs = []
     for d in diffs:
@@ -43,7 +44,10 @@ def combine_patches(diffs):
                 p.diff = combine_patches(p.diff + d.diff)
         else:
             newdiffs.append(d)
-    return sorted(newdiffs, key=lambda x: x.key)
+    # addrange(k) inserts before item k: it has to come before patch(k)
+    # (what the differ emits), or the patched item would end up in
+    # front of the inserted ones when both land on the same position
+    return sorted(newdiffs, key=lambda x: (x.key, x.op != DiffOp.ADDRANGE))
 
 
 def adjust_patch_level(target_path, common_path, diff):
